@@ -316,6 +316,32 @@ class Canon:
             if isinstance(v, (tuple, list)) and _plain_table(v):
                 lit = lambda x: ast.Constant(x) if not isinstance(x, (tuple, list)) else (ast.List if isinstance(x, list) else ast.Tuple)([lit(y) for y in x], ast.Load())
                 return lit(v)
+        if isinstance(e, ast.JoinedStr):
+            # f"{a}_x{b:02x}" is "%s_x%02x" % (a, b): one form for both spellings of string formatting
+            fmt, vals, ok = "", [], True
+            for part in e.values:
+                if isinstance(part, ast.Constant) and isinstance(part.value, str):
+                    fmt += part.value.replace("%", "%%")
+                elif isinstance(part, ast.FormattedValue) and part.conversion in (-1, 115):
+                    spec = ""
+                    if part.format_spec is not None:
+                        if isinstance(part.format_spec, ast.JoinedStr) and len(part.format_spec.values) == 1 and isinstance(part.format_spec.values[0], ast.Constant):
+                            spec = part.format_spec.values[0].value
+                        else:
+                            ok = False
+                    if spec == "":
+                        fmt += "%s"
+                    elif spec[-1:] in "dxXo" and (spec[:-1] == "" or spec[:-1].isdigit()):
+                        fmt += "%" + spec
+                    else:
+                        ok = False
+                    vals.append(part.value)
+                else:
+                    ok = False
+            if ok and vals:
+                return self._fold(ast.BinOp(ast.Constant(fmt), ast.Mod(), vals[0] if len(vals) == 1 else ast.Tuple(vals, ast.Load())))
+            if ok and not vals:
+                return ast.Constant(fmt.replace("%%", "%"))
         if isinstance(e, ast.Compare) and len(e.ops) > 1:
             # a <= b < c  is  a <= b and b < c  (the operands are values: impure calls keep their identity tag)
             parts = []
@@ -2002,7 +2028,9 @@ def walk(ctx, fi, leaf=None, keep=(), body=None, int_names=None, inline=False, f
     keep = set(keep) | (mutated_locals(node) - set(fi.params()))
     canon = Canon(make_const_of(ctx, fi, tables=True), int_names, make_inliner(ctx, fi) if inline else None)
     canon.assign_of = make_assign_resolver(ctx, fi)
-    w = SymWalker(node, canon, leaf, keep=keep, feasible=feasible)
+    # assertions are not behaviour a property may rest on (python -O removes them): a rule reads the function without them, so
+    # that a defensive `assert` that can never fire does not split the paths a rule measures (VERIF_KEEP_ASSERTS=1 keeps them)
+    w = SymWalker(node, canon, leaf, keep=keep, feasible=feasible, ignore_asserts=os.environ.get("VERIF_KEEP_ASSERTS") != "1")
     w.run(body)
     return w
 
